@@ -189,6 +189,43 @@ static void run_passwords(uint64_t idx, pv_rng* rng) {
     pv_transcript(T);
 }
 
+/* ---------------------------------------------------------------- strings whose decomposed form ends exactly at / just beyond the buffer:
+ * ASCII padding in front, multi-byte characters of every UTF-8 width at the end, so that the normaliser's output is exactly
+ * size-1 bytes long or is cut by the dependency in the middle of a character at every possible offset */
+static uint64_t n_boundary(void) { return pv_scaled(1500, 100000); }
+static void run_boundary(uint64_t idx, pv_rng* rng) {
+    T = 0x19191919;
+    static const char* const TAILCH[] = { "\xc3\xa9", "\xc3\xb1", "\xc2\xb5", "\xc2\xbd", "\xce\xa9", "\xe3\x81\xb1", "\xea\xb0\x80", "\xed\x9e\xa3", "\xef\xbc\xa1", "\xf0\x9f\x98\x80", "\xe2\x84\xab", "\xcd\xb0", "\xcc\x81", "\xef\xac\x81" };
+    char tail[128]; size_t tl = 0; int nt = 2 + (int)pv_randn(rng, 5);
+    for (int i = 0; i < nt; ++i) { const char* c = TAILCH[pv_randn(rng, sizeof TAILCH / sizeof *TAILCH)]; size_t l = strlen(c); memcpy(tail + tl, c, l); tl += l; }
+    tail[tl] = 0;
+    char* nft = pv_nfkd_alloc(tail); size_t tn = strlen(nft); free(nft);
+    long target = (long)POLYSEED_STR_SIZE - 1 + (long)(idx % 16) - 6;           /* size-7 .. size+8, the exact fit (size-1) included */
+    long front = target - (long)tn; if (front < 1) front = 1;
+    char* str = pv_xmalloc((size_t)front + tl + 1);
+    for (long i = 0; i < front; ++i) str[i] = (idx & 16) && (i % 11 == 10) ? ' ' : (char)('a' + (i * 7 + (long)idx) % 26);
+    memcpy(str + front, tail, tl + 1);
+    char* nf = pv_nfkd_alloc(str); size_t nl = strlen(nf); free(nf);
+    pv_countf(1, "boundary.nfkd_length.size%+ld", (long)nl - (long)POLYSEED_STR_SIZE);
+    /* as a password */
+    pv_mseed m; pv_gen_mseed(rng, 7, true, &m);
+    polyseed_data* s = pv_seed_from_model(&m);
+    if (s) {
+        char* in = pv_exact_str(str);
+        pv_api_crypt(s, in); PV_COUNT("evaluations", 1);
+        t_u("crypt.nkdf", (uint64_t)pv_w->nkdf);
+        if (pv_w->nkdf == 1) { pv_kdfrec* r = &pv_w->kdf[0]; t_u("crypt.pwlen", r->pwlen); t_b("crypt.pw", r->pw, r->pwlen < 1024 ? r->pwlen : 1024); }
+        t_seed(s, 0);
+        pv_api_free(s); free(in);
+    }
+    /* as a phrase (garbage: compared between the builds only) */
+    pv_mlang* L = &pv_langs[(idx / 16) % (uint64_t)pv_nlangs];
+    if (L->lib) op_decode(str, pv_gen_coin(rng), L, NULL, "boundary");
+    if (idx < 3) pv_sample("boundary", "decomposed length %zu (buffer %d): '...%s'", nl, POLYSEED_STR_SIZE, pv_esc(tail));
+    free(str);
+    pv_transcript(T);
+}
+
 /* ---------------------------------------------------------------- grammar strings: compared between the builds only */
 static uint64_t n_grammar(void) { return pv_scaled(8000, 2000000); }
 static void run_grammar(uint64_t idx, pv_rng* rng) {
@@ -204,6 +241,6 @@ static void run_grammar(uint64_t idx, pv_rng* rng) {
 }
 
 int main(int argc, char** argv) {
-    static const pv_section secs[] = { { "phrases", n_phrases, run_phrases }, { "allwords", n_allwords, run_allwords }, { "edges", n_edges, run_edges }, { "passwords", n_passwords, run_passwords }, { "grammar", n_grammar, run_grammar } };
-    return pv_main(argc, argv, "C19", secs, 5, init, NULL);
+    static const pv_section secs[] = { { "phrases", n_phrases, run_phrases }, { "allwords", n_allwords, run_allwords }, { "edges", n_edges, run_edges }, { "passwords", n_passwords, run_passwords }, { "boundary", n_boundary, run_boundary }, { "grammar", n_grammar, run_grammar } };
+    return pv_main(argc, argv, "C19", secs, 6, init, NULL);
 }
